@@ -593,7 +593,9 @@ func (b *RefinementBuilder) NewValue() (ret Value) {
 
 	return Value{
 		ty: b.orig.ty,
-		v:  &unknownType{refinement: b.wip},
+		// The builder remains usable after this call, so the new value
+		// must not share the work-in-progress refinement with it.
+		v: &unknownType{refinement: b.wip.copy()},
 	}
 }
 
